@@ -134,6 +134,18 @@ CHECKS = {
              'objects are handled within 0.5 s; after the faults stop the next change is handled and the object converges. Bounded '
              'exploration.',
         design_ref='5/C12'),
+    'C13': dict(
+        technique='property-based testing with several simulated operator processes in one virtual time: Hypothesis-generated priorities '
+                  '(distinct/equal), lifetimes, API and stream latencies and timelines of starts, graceful exits, kills, environment-written '
+                  'peering records (noisy, dead, immortal) and their removal, with settle points followed by a probe edit; oracle = the '
+                  'documented pausing rule evaluated on the peering object\'s content at each settle point against the observable '
+                  'activity of every process, plus keep-alive and once-only invariants over the histories',
+        text='At every settle point an operator holds a stream of the served resource, runs its daemons and handles the probe iff no '
+             'other live record of higher or equal priority exists (exactly the top one among distinct priorities, also after a kill or '
+             'exit; nobody among equal ones); own records are renewed before they expire, removed on graceful exit, dead records '
+             'disappear within a keep-alive period; no creation/resume handler succeeds twice and no update is handled twice within one '
+             'process (one listed known finding: a pause that drops the event of an own patch). Bounded exploration.',
+        design_ref='5/C13'),
     'C14': dict(
         technique='property-based testing: Hypothesis-generated multi-incarnation closed-loop histories (objects handled / half-handled / '
                   'created during downtime / being deleted before a start; stream breaks, 410 compaction => re-listing, edits and cloned '
